@@ -110,6 +110,7 @@ type xferWorld struct {
 	lastMoved     int64
 	lastMoveAt    time.Duration
 	capHit        bool
+	clientConnector func(int) net.Conn // overrides the client's tunnel connector (C17)
 	paused        bool // a pause was requested at some point (keep-alive lines are legitimate)
 }
 
@@ -279,7 +280,11 @@ func (x *xferWorld) start() {
 		fo.TerminalColumns = o.cols
 		x.filter = NewTrzszFilter(x.kbd, x.term, x.up[0], x.down[0], fo)
 		if o.tunnel {
-			x.filter.SetTunnelConnector(x.connector("client", 0))
+			if x.clientConnector != nil {
+				x.filter.SetTunnelConnector(x.clientConnector)
+			} else {
+				x.filter.SetTunnelConnector(x.connector("client", 0))
+			}
 		}
 		if o.upload {
 			switch o.uploadVia {
